@@ -1,12 +1,21 @@
-(** C03 - property theorems *)
+(** C03 - property theorems (statements only; proofs live in the library files) *)
 From Coq Require Import ZArith NArith PArith List Bool.
-From Cohdl Require Import Vhdl.Value Vhdl.Syntax Vhdl.Sem Equiv.Explore Equiv.VhdlTS Equiv.RefTS Models.SeqRef.
+From Cohdl Require Import Vhdl.Value Vhdl.Syntax Vhdl.Sem Vhdl.DefAssign Vhdl.DeadVars Equiv.Explore Equiv.VhdlTS Equiv.RefTS Equiv.Monitor Equiv.StoreTS Models.SeqRef.
 Import ListNotations.
 
 Theorem C03_case_sound :
   forall d mid stepB alphabet assume fuel initB,
-    is_ok (rcheck d mid stepB alphabet assume fuel initB) = true ->
+    conc_all_ok (auto_Ts d) d = true ->
+    is_ok (rcheck_s d mid stepB alphabet assume fuel initB) = true ->
     forall ins, admissible stepB alphabet assume initB ins ->
-      traceA (vstep d mid) (power_up d) ins = traceB stepB initB ins.
-Proof. exact rcheck_sound. Qed.
+      traceA (sstep d mid) (power_up_s d) ins = traceB stepB initB ins.
+Proof. exact rcheck_s_sound. Qed.
 Print Assumptions C03_case_sound.
+
+(** the explored system is the design with its dead compiler temporaries normalised after every
+    clock; this theorem is what makes that exploration speak about the design itself *)
+Theorem C03_normalisation_sound :
+  forall T d mid, conc_all_ok T d = true -> forall ins s n, srel_s T s n ->
+    traceA (sstep d mid) s ins = traceA (sstep_n d T mid) n ins.
+Proof. exact norm_traces_s. Qed.
+Print Assumptions C03_normalisation_sound.
